@@ -431,7 +431,7 @@ def judge_transparent(case, impl, model):
     if claimed:
         if impl['created'] != 'ok':
             pfail = f"the call raised ({impl['created']}) although the annotation is a generator type and every value conforms"
-            if agree_at(impl, model, []) and not sp['typingSpelling']:
+            if agree_at(impl, model, []) and not sp['supportedSpelling']:
                 finding = 'generatorAnnotationSpelling'
         elif not impl.get('iterSelf'):
             pfail = 'iter(g) is not g'
